@@ -2,6 +2,7 @@ import Rare.Base.Proto
 import Rare.Model.C13Lower
 import Rare.Model.C13Date
 import Rare.Model.C13Groups
+import Rare.Model.C13Axes
 /-!
 Line-protocol ops of C13.  Common trailing fields describe the data and the REMAINING library oracles
 (`dateparse.ParseFormat`, `time.Parse`).  `strconv.ParseFloat` and `strings.ToLower` are computed by
@@ -42,6 +43,14 @@ Row order of `rare reduce` (`AccumulatingGroup.Groups` with `ByContextual()` / `
   groups    <rev 0|1> <groups> <sortkeys|.> <perm>   the specified order: sort key by the sorter, equal sort keys
                                                       by group key text (`.` = no `--sort`: the sorter on the group keys);
                                                       `unmodelled` when the sorter's keys are not `ctxUniform` (F19)
+
+Round 4b – the two axes of table/heatmap/spark and the render loop (`Rare/Model/C13Axes.lean`):
+
+  axes    <rname> <cname> <rowkeys> <colkeys> <renders> <rdl> <cdl>   two `BuildSorter` closures (rows, columns), their
+                                                      variables threaded through every render (columns first, then rows;
+                                                      Go's insertion sort, n ≤ 12); `<renders>` = `.` | `cols:rows/…` index lists
+  axesagg <rname> <cname> <rowkeys> <colkeys> <renders> <rdl> <cdl>   cumulative renders through the real TableAggregator:
+                                                      the specified order of each axis (`unmodelled` unless both are uniform)
 -/
 namespace Rare.Drv.C13
 open Rare Rare.C13 Rare.Proto
@@ -220,7 +229,75 @@ def axiomsAnswer (d : Data) : String :=
         | _, _ => false
       matrixAnswer n m
 
+def parseIdx (s : String) (n : Nat) : Option (List Nat) := do
+  let p ← (commaList s).mapM String.toNat?
+  if p.all (· < n) ∧ p.Nodup then some p else none
+
+def parseRenders (s : String) (nc nr : Nat) : Option (List (List Nat × List Nat)) :=
+  if s = "." then some []
+  else (s.splitOn "/").mapM (fun w =>
+    match w.splitOn ":" with
+    | [c, r] => do
+      let ci ← parseIdx c nc
+      let ri ← parseIdx r nr
+      pure (ci, ri)
+    | _ => none)
+
+def rendersAnswer (out : List (List NV × List NV)) : String :=
+  if out.isEmpty then "ok ." else s!"ok {"/".intercalate (out.map (fun p => s!"{names p.1}:{names p.2}"))}"
+
+/-- cumulative renders of `axesagg`: keys seen so far on each axis with their totals (every render samples each
+column × row pair of its index lists with increment 1) -/
+def aggScreens (cols rows : List Key) (renders : List (List Nat × List Nat)) : List (List NV × List NV) :=
+  (List.range renders.length).map (fun i =>
+    let hist := renders.take (i + 1)
+    let colIdx := (hist.flatMap (·.1)).eraseDups
+    let rowIdx := (hist.flatMap (·.2)).eraseDups
+    let colTotal := fun c => (hist.foldl (fun acc h => if h.1.contains c then acc + h.2.length else acc) 0 : Nat)
+    let rowTotal := fun r => (hist.foldl (fun acc h => if h.2.contains r then acc + h.1.length else acc) 0 : Nat)
+    (colIdx.filterMap (fun c => (cols[c]?).map (fun k => (⟨k, (colTotal c : Int)⟩ : NV))),
+     rowIdx.filterMap (fun r => (rows[r]?).map (fun k => (⟨k, (rowTotal r : Int)⟩ : NV)))))
+
+def axesAnswer (op : String) (dr dc : Data) (renders : List (List Nat × List Nat)) : String :=
+  -- the commands build the row sorter first: its error is the one reported
+  match resolve dr with
+  | .inl ans => ans
+  | .inr (mr, revr) =>
+    match resolve dc with
+    | .inl ans => ans
+    | .inr (mc, revc) =>
+      if op = "axes" then
+        let rows := dr.items
+        let cols := dc.items
+        let rs := renders.map (fun p => (p.1.filterMap (fun i => cols[i]?), p.2.filterMap (fun i => rows[i]?)))
+        if rs.any (fun r => decide (r.1.length > 12) || decide (r.2.length > 12)) then "unmodelled large"
+        else
+          match buildSorter dr.o sortSets dr.name, buildSorter dc.o sortSets dc.name with
+          | .ok sr, .ok sc =>
+            rendersAnswer (tableRenders (goInsertionSort sr.cmp) (goInsertionSort sc.cmp) sr.init sc.init rs)
+          | _, _ => "bad-args"
+      else if uniform dr mr && uniform dc mc then
+        rendersAnswer ((aggScreens dc.keys dr.keys renders).map (fun p =>
+          (isort (specLess dc mc revc) p.1, isort (specLess dr mr revr) p.2)))
+      else "unmodelled stateful-nonuniform"
+
+def zeros (keys : String) : String :=
+  match decHexList keys with
+  | some ks => if ks.isEmpty then "." else ",".intercalate (ks.map (fun _ => "0"))
+  | none => "."
+
 def handle : List String → String
+  | [op, rname, cname, rowkeys, colkeys, renders, rdl, cdl] =>
+    if op = "axes" ∨ op = "axesagg" then
+      match parseDataL rname rowkeys (zeros rowkeys) rdl, parseDataL cname colkeys (zeros colkeys) cdl with
+      | some (.inl w), _ => w
+      | _, some (.inl w) => w
+      | some (.inr dr), some (.inr dc) =>
+        match parseRenders renders dc.keys.length dr.keys.length with
+        | some rs => axesAnswer op dr dc rs
+        | none => "bad-args"
+      | _, _ => "bad-args"
+    else "bad-op"
   | ["pf", keys] =>
     match decHexList keys with
     | none => "bad-args"
